@@ -155,7 +155,7 @@ impl StructureChecker {
             {
                 let limit_usize = limit as usize;
                 // Warn threshold fallback: absolute → percentage → global → default 0.8
-                let warn_limit = Self::calculate_warn_limit(
+                let warn_from = Self::warn_from(
                     limit,
                     limits.warn_files_at,
                     limits.warn_files_threshold,
@@ -171,7 +171,7 @@ impl StructureChecker {
                         limit_usize,
                         limits.override_reason.clone(),
                     ));
-                } else if stats.file_count > warn_limit {
+                } else if stats.file_count >= warn_from {
                     violations.push(StructureViolation::warning(
                         path.clone(),
                         ViolationType::FileCount,
@@ -188,7 +188,7 @@ impl StructureChecker {
             {
                 let limit_usize = limit as usize;
                 // Warn threshold fallback: absolute → percentage → global → default 0.8
-                let warn_limit = Self::calculate_warn_limit(
+                let warn_from = Self::warn_from(
                     limit,
                     limits.warn_dirs_at,
                     limits.warn_dirs_threshold,
@@ -204,7 +204,7 @@ impl StructureChecker {
                         limit_usize,
                         limits.override_reason.clone(),
                     ));
-                } else if stats.dir_count > warn_limit {
+                } else if stats.dir_count >= warn_from {
                     violations.push(StructureViolation::warning(
                         path.clone(),
                         ViolationType::DirCount,
@@ -258,6 +258,26 @@ impl StructureChecker {
 
     /// Calculate the warn limit using the fallback chain:
     /// absolute → percentage → global → default
+    /// Smallest count that triggers a warning.
+    ///
+    /// An absolute `warn_*_at = N` means "warns at N+ entries" (as documented on the
+    /// field), so it is inclusive; a percentage warns *above* the rounded-up share of
+    /// the limit.
+    #[allow(clippy::cast_possible_truncation, clippy::cast_sign_loss)]
+    fn warn_from(
+        limit: i64,
+        absolute: Option<i64>,
+        percentage: Option<f64>,
+        global_threshold: Option<f64>,
+        default_threshold: f64,
+    ) -> usize {
+        if let Some(abs) = absolute {
+            return abs as usize;
+        }
+        Self::calculate_warn_limit(limit, None, percentage, global_threshold, default_threshold)
+            .saturating_add(1)
+    }
+
     #[allow(
         clippy::cast_possible_truncation,
         clippy::cast_sign_loss,
